@@ -1,6 +1,6 @@
 # -*- coding: utf-8 -*-
 
-from typing import Any, Dict, List, Mapping, Optional, Sequence
+from typing import Any, Dict, List, Mapping, Optional, Sequence, Tuple
 
 from ..exc import CoercionError, ValidationError, VariablesCoercionError
 from ..lang.ast import (
@@ -12,7 +12,11 @@ from ..lang.ast import (
 )
 from ..schema import Schema
 from .coerce_value import coerce_variable_values
-from .collect_fields import _skip_selection, collect_fields_untyped
+from .collect_fields import (
+    ExpansionBudgetExhausted,
+    _skip_selection,
+    collect_fields_untyped,
+)
 
 
 def _skip_unless_unknown(node: Node, variables: Mapping[str, Any]) -> bool:
@@ -28,10 +32,30 @@ def _skip_unless_unknown(node: Node, variables: Mapping[str, Any]) -> bool:
         return False
 
 
+def _static_nesting(selections: Sequence[Selection]) -> int:
+    """
+    Longest chain of nested selection sets as written (spreads not expanded).
+    """
+    return max(
+        (
+            1
+            + (
+                _static_nesting(node.selection_set.selections)  # type: ignore
+                if getattr(node, "selection_set", None) is not None
+                else 0
+            )
+            for node in selections
+        ),
+        default=0,
+    )
+
+
 def _nesting_levels(
     selections: Sequence[Selection],
     fragments: Mapping[str, FragmentDefinition],
     variables: Mapping[str, Any],
+    budget: int,
+    memo: Dict[Tuple[int, ...], int],
 ) -> int:
     """
     Number of nested field levels selected by a selection set.
@@ -39,10 +63,26 @@ def _nesting_levels(
     Inline fragments and fragment spreads are traversed at any level and
     ``@skip`` / ``@include`` are honoured. Fields sharing a response key are
     merged (as they are during execution) so all their sub-selections count.
+
+    ``budget`` bounds the nesting of the traversal (fragment cycles would
+    otherwise never end): :class:`ExpansionBudgetExhausted` is raised when it is
+    used up. ``memo`` (one per operation) avoids measuring the same selections
+    again when a fragment is spread in many places.
     """
+    if budget <= 0:
+        raise ExpansionBudgetExhausted()
+
+    key = tuple(id(selection) for selection in selections)
+    if key in memo:
+        return memo[key]
+
     levels = 0
     collected = collect_fields_untyped(
-        selections, fragments, variables, skip_selection=_skip_unless_unknown
+        selections,
+        fragments,
+        variables,
+        skip_selection=_skip_unless_unknown,
+        _budget=budget,
     )
     for fields in collected.values():
         subselections = [
@@ -52,8 +92,14 @@ def _nesting_levels(
             for selection in field.selection_set.selections
         ]
         levels = max(
-            levels, 1 + _nesting_levels(subselections, fragments, variables)
+            levels,
+            1
+            + _nesting_levels(
+                subselections, fragments, variables, budget - 1, memo
+            ),
         )
+
+    memo[key] = levels
     return levels
 
 
@@ -112,6 +158,21 @@ class MaxDepthValidationRule:
         depth = None  # type: Optional[int]
         errors = []  # type: List[ValidationError]
 
+        # No acyclic document nests its traversal deeper than this (every
+        # fragment at most once on a path, each adding at most the nesting it
+        # is written with): only fragment cycles can use it up.
+        budget = (len(fragments) + 2) * (
+            1
+            + max(
+                (
+                    _static_nesting(d.selection_set.selections)
+                    for d in doc.definitions
+                    if isinstance(d, (OperationDefinition, FragmentDefinition))
+                ),
+                default=0,
+            )
+        )
+
         for op in doc.definitions:
             if not isinstance(op, OperationDefinition):
                 continue
@@ -133,13 +194,34 @@ class MaxDepthValidationRule:
 
             # Depth is the number of levels nested below the root fields, so
             # a flat (or empty after @skip / @include) operation has depth 0.
-            depth = max(
-                0,
-                _nesting_levels(
-                    op.selection_set.selections, fragments, op_variables
+            try:
+                depth = max(
+                    0,
+                    _nesting_levels(
+                        op.selection_set.selections,
+                        fragments,
+                        op_variables,
+                        budget,
+                        {},
+                    )
+                    - 1,
                 )
-                - 1,
-            )
+            except (ExpansionBudgetExhausted, RecursionError):
+                # A fragment cycle (reported by the NoFragmentCycles rule) is
+                # selected, or the document is nested deeper than the
+                # interpreter can follow: there is no depth to compare.
+                errors.append(
+                    ValidationError(
+                        'Operation "%s" depth is unbounded and exceeds maximum '
+                        "depth (%s)"
+                        % (
+                            op.name.value if op.name else "<ANONYMOUS>",
+                            self.max_depth,
+                        ),
+                        nodes=[op],
+                    ),
+                )
+                continue
 
             if depth > self.max_depth:
                 errors.append(
